@@ -539,6 +539,23 @@ impl<'a> PartialEq for NNumReal<'a> {
     }
 }
 
+// exact comparison when a rational is involved; an infinite float lies beyond every rational
+fn cmp_via_rational(a: &NNumReal, b: &NNumReal) -> Option<Ordering> {
+    match (a, b) {
+        (NNumReal::Float(f), _) if f.is_infinite() => Some(if *f > 0.0 {
+            Ordering::Greater
+        } else {
+            Ordering::Less
+        }),
+        (_, NNumReal::Float(f)) if f.is_infinite() => Some(if *f > 0.0 {
+            Ordering::Less
+        } else {
+            Ordering::Greater
+        }),
+        _ => a.exact_to_rational()?.partial_cmp(&b.exact_to_rational()?),
+    }
+}
+
 impl<'a> PartialOrd for NNumReal<'a> {
     fn partial_cmp(&self, other: &Self) -> Option<Ordering> {
         match (self, other) {
@@ -546,7 +563,7 @@ impl<'a> PartialOrd for NNumReal<'a> {
             (NNumReal::Int(a), NNumReal::Float(b)) => cmp_nint_f64(a, b),
             (NNumReal::Float(a), NNumReal::Int(b)) => cmp_nint_f64(b, a).map(|ord| ord.reverse()),
             (NNumReal::Float(a), NNumReal::Float(b)) => a.partial_cmp(b),
-            (a, b) => a.exact_to_rational()?.partial_cmp(&b.exact_to_rational()?),
+            (a, b) => cmp_via_rational(a, b),
         }
     }
 }
@@ -564,10 +581,7 @@ impl<'a> NNumReal<'a> {
             (NNumReal::Float(a), NNumReal::Float(b)) => {
                 a.partial_cmp(b).unwrap_or(b.is_nan().cmp(&a.is_nan()))
             } // note swap
-            (a, b) => match (a.exact_to_rational(), b.exact_to_rational()) {
-                (Some(a), Some(b)) => a.cmp(&b),
-                _ => b.is_nan().cmp(&a.is_nan()),
-            },
+            (a, b) => cmp_via_rational(a, b).unwrap_or(b.is_nan().cmp(&a.is_nan())),
         }
     }
 
@@ -581,10 +595,7 @@ impl<'a> NNumReal<'a> {
             (NNumReal::Float(a), NNumReal::Float(b)) => {
                 a.partial_cmp(b).unwrap_or(a.is_nan().cmp(&b.is_nan()))
             }
-            (a, b) => match (a.exact_to_rational(), b.exact_to_rational()) {
-                (Some(a), Some(b)) => a.cmp(&b),
-                _ => a.is_nan().cmp(&b.is_nan()),
-            },
+            (a, b) => cmp_via_rational(a, b).unwrap_or(a.is_nan().cmp(&b.is_nan())),
         }
     }
 }
